@@ -523,7 +523,7 @@ Section Cascade.
   Qed.
 End Cascade.
 
-(** ** the current reader: [split_once] *)
+(** ** the reader before 0f91cb1: [split_once] on bare marker words *)
 Definition okb_once (m : text) (ls : list text) : bool := negb (contains m (unlines ls)).
 
 Lemma unlines_trim_end ls : ls <> [] -> Forall (fun l => line_ok l = true) ls ->
@@ -534,10 +534,10 @@ Proof.
   rewrite E, unlines_app. unfold unlines at 2. cbn [map concat]. rewrite app_nil_r, <- app_assoc. reflexivity.
 Qed.
 
-Theorem framing_roundtrip a :
-  sections_wf a = true -> no_marker_in_bodies a = true -> from_uasm (to_uasm a) = inr (reread a).
+Theorem framing_roundtrip_pre a :
+  sections_wf a = true -> no_marker_in_bodies a = true -> from_uasm_pre (to_uasm a) = inr (reread a).
 Proof.
-  intros Hwf Hno. unfold from_uasm.
+  intros Hwf Hno. unfold from_uasm_pre.
   apply (cascade_roundtrip split_once [NL] (fun X => X) okb_once); auto.
   - intros m ls X Hm Ho _ _. destruct (marker_facts _ Hm) as (Hne & Hnl & _).
     apply split_once_step; auto. unfold okb_once in Ho. apply negb_true_iff in Ho. exact Ho.
@@ -568,13 +568,230 @@ Definition refute_witness : sections :=
   Sections [[123;34;112;117;115;104;34;58;34] ++ M_DEPENDENCIES ++ [34;125]] [] [] [] [] [] [] [] [] []
            [34 :: 92 :: 34 :: M_DEPENDENCIES ++ [92;34;34]].
 
-Theorem framing_refuted : exists a, sections_wf a = true /\ from_uasm (to_uasm a) <> inr (reread a) /\
-  from_uasm (to_uasm a) <> inr a.
-Proof. exists refute_witness. split; [reflexivity|]. split; vm_compute; discriminate. Qed.
+Theorem framing_refuted_pre : exists a, sections_wf a = true /\ written_shape a = true /\
+  from_uasm_pre (to_uasm a) <> inr (reread a) /\ from_uasm_pre (to_uasm a) <> inr a.
+Proof. exists refute_witness. split; [reflexivity|]. split; [reflexivity|]. split; vm_compute; discriminate. Qed.
 
-(** the proposed repair (markers matched as whole lines, [split_marker]) reads the witness back;
-    the general theorem for [from_uasm'] is an instance of [cascade_roundtrip] with
-    pfx = [], post = "drop one leading newline", okb = no_line_is - its four step lemmas about
-    [split_marker] are not carried yet *)
-Example repaired_reads_witness : from_uasm' (to_uasm refute_witness) = inr (reread refute_witness).
-Proof. vm_compute. reflexivity. Qed.
+
+(** ** the current reader: [split_marker] (whole-line markers) *)
+Definition prep (p : text) (o : option (text * text)) : option (text * text) :=
+  match o with Some (a, b) => Some (p ++ a, b) | None => None end.
+
+Lemma sm_eq m bol s : split_marker_aux m bol s =
+  match (if bol then at_marker m s else None) with
+  | Some r => Some ([], r)
+  | None => match s with [] => None | c :: s' => prep [c] (split_marker_aux m (c =? NL) s') end
+  end.
+Proof. destruct s; reflexivity. Qed.
+
+Lemma prep_prep p q o : prep p (prep q o) = prep (p ++ q) o.
+Proof. destruct o as [[a b]|]; cbn; [rewrite app_assoc|]; reflexivity. Qed.
+
+Lemma at_marker_cons x m c s : at_marker (x :: m) (c :: s) = if x =? c then at_marker m s else None.
+Proof. unfold at_marker. cbn [strip_prefix]. destruct (x =? c); reflexivity. Qed.
+
+Definition tail_shape (T : text) : Prop := T = [] \/ exists Z, T = NL :: Z.
+
+(** a line that is recognised as the marker IS the marker (possibly followed by one CR) *)
+Lemma at_marker_line m : forall l T r, ~ In NL m -> noNL l -> tail_shape T ->
+  at_marker m (l ++ T) = Some r -> l = m \/ l = m ++ [CR].
+Proof.
+  induction m as [|x m IH]; intros l T r Hm Hl HT H.
+  - destruct l as [|c l]; [left; reflexivity|]. right.
+    assert (Hc : (c =? NL) = false).
+    { apply N.eqb_neq. intros ->. apply Hl. left; reflexivity. }
+    unfold at_marker in H. cbn [strip_prefix app] in H. rewrite Hc in H.
+    destruct (c =? CR) eqn:Ec; [|discriminate]. apply N.eqb_eq in Ec. subst c.
+    destruct l as [|d l]; [reflexivity|]. cbn [app] in H.
+    assert (Hd : (d =? NL) = false).
+    { apply N.eqb_neq. intros ->. apply Hl. right; left; reflexivity. }
+    rewrite Hd in H. discriminate.
+  - assert (Hx : (x =? NL) = false).
+    { apply N.eqb_neq. intros ->. apply Hm. left; reflexivity. }
+    destruct l as [|c l].
+    + cbn [app] in H. destruct HT as [-> | [Z ->]].
+      * discriminate.
+      * rewrite at_marker_cons, Hx in H. discriminate.
+    + cbn [app] in H. rewrite at_marker_cons in H. destruct (x =? c) eqn:E; [|discriminate].
+      apply N.eqb_eq in E. subst c.
+      destruct (IH l T r) as [-> | ->]; auto.
+      * intros Hin; apply Hm; right; auto.
+      * intros Hin; apply Hl; right; auto.
+Qed.
+
+Lemma text_eqb_refl a : text_eqb a a = true.
+Proof. induction a; cbn; [reflexivity | rewrite N.eqb_refl; auto]. Qed.
+
+Lemma strip_cr_snoc m : strip_cr (m ++ [CR]) = m.
+Proof.
+  induction m as [|x m IH]; [reflexivity|]. cbn [app].
+  rewrite strip_cr_cons by (destruct m; discriminate). rewrite IH. reflexivity.
+Qed.
+
+Definition not_marker (m l : text) : Prop := text_eqb (strip_cr l) m = false.
+
+Lemma at_marker_none m l T : marker_okb m = true -> noNL l -> not_marker m l -> tail_shape T ->
+  at_marker m (l ++ T) = None.
+Proof.
+  intros Hm Hl Hn HT. destruct (marker_facts _ Hm) as (_ & Hnl & _ & (m0 & d & Em & Wd)).
+  destruct (at_marker m (l ++ T)) eqn:E; [|reflexivity]. exfalso.
+  apply at_marker_line in E; auto. unfold not_marker in Hn. destruct E as [-> | ->].
+  - rewrite Em in Hn. rewrite strip_cr_id in Hn by (intros ->; discriminate).
+    rewrite text_eqb_refl in Hn. discriminate.
+  - rewrite strip_cr_snoc, text_eqb_refl in Hn. discriminate.
+Qed.
+
+Lemma sm_nobol m : forall l Z, noNL l ->
+  split_marker_aux m false (l ++ NL :: Z) = prep (l ++ [NL]) (split_marker_aux m true Z).
+Proof.
+  induction l as [|c l IH]; intros Z Hl.
+  - cbn [app]. rewrite sm_eq. rewrite N.eqb_refl. reflexivity.
+  - cbn [app]. rewrite sm_eq.
+    assert (Hc : (c =? NL) = false).
+    { apply N.eqb_neq. intros ->. apply Hl. left; reflexivity. }
+    rewrite Hc, IH by (intros Hin; apply Hl; right; auto). rewrite prep_prep. reflexivity.
+Qed.
+
+Lemma sm_nobol_none m : forall l, noNL l -> split_marker_aux m false l = None.
+Proof.
+  induction l as [|c l IH]; intros Hl; [reflexivity|]. rewrite sm_eq.
+  assert (Hc : (c =? NL) = false).
+  { apply N.eqb_neq. intros ->. apply Hl. left; reflexivity. }
+  rewrite Hc, IH by (intros Hin; apply Hl; right; auto). reflexivity.
+Qed.
+
+Lemma sm_line m l Z : marker_okb m = true -> noNL l -> not_marker m l ->
+  split_marker_aux m true (l ++ NL :: Z) = prep (l ++ [NL]) (split_marker_aux m true Z).
+Proof.
+  intros Hm Hl Hn. rewrite sm_eq. rewrite at_marker_none by (auto; right; eexists; reflexivity).
+  destruct l as [|c l].
+  - cbn [app]. rewrite N.eqb_refl. reflexivity.
+  - cbn [app].
+    assert (Hc : (c =? NL) = false).
+    { apply N.eqb_neq. intros ->. apply Hl. left; reflexivity. }
+    rewrite Hc, sm_nobol by (intros Hin; apply Hl; right; auto). rewrite prep_prep. reflexivity.
+Qed.
+
+Lemma sm_unlines m ls : forall Z, marker_okb m = true -> Forall noNL ls -> Forall (not_marker m) ls ->
+  split_marker_aux m true (unlines ls ++ Z) = prep (unlines ls) (split_marker_aux m true Z).
+Proof.
+  induction ls as [|l ls IH]; intros Z Hm H1 H2.
+  - cbn. destruct (split_marker_aux m true Z) as [[? ?]|]; reflexivity.
+  - inversion H1; inversion H2; subst. rewrite unlines_cons, <- app_assoc. cbn [app].
+    rewrite sm_line, IH by auto. rewrite prep_prep, <- app_assoc. reflexivity.
+Qed.
+
+Definition post_nl (X : text) : text := match X with c :: Y => if c =? NL then Y else X | [] => [] end.
+
+Lemma sm_at m X : marker_okb m = true -> shape X -> split_marker_aux m true (m ++ X) = Some ([], post_nl X).
+Proof.
+  intros Hm HX. rewrite sm_eq. unfold at_marker. rewrite strip_prefix_app.
+  destruct HX as [-> | [Y ->]]; [reflexivity|]. rewrite N.eqb_refl. cbn [post_nl]. rewrite N.eqb_refl. reflexivity.
+Qed.
+
+Lemma no_line_is_Forall m ls : no_line_is m ls = true -> Forall (not_marker m) ls.
+Proof.
+  unfold no_line_is. intros H. apply negb_true_iff in H. apply Forall_forall. intros l Hin.
+  unfold not_marker. destruct (text_eqb (strip_cr l) m) eqn:E; [|reflexivity].
+  assert (existsb (fun l => text_eqb (strip_cr l) m) ls = true); [|congruence].
+  apply existsb_exists. exists l. auto.
+Qed.
+
+Lemma sm_step m ls X : marker_okb m = true -> no_line_is m ls = true -> Forall noNL ls -> shape X ->
+  split_marker m (unlines ls ++ NL :: m ++ X) = Some (unlines ls ++ [NL], post_nl X).
+Proof.
+  intros Hm Ho Hn HX. unfold split_marker. rewrite sm_unlines by (auto using no_line_is_Forall).
+  destruct (marker_facts _ Hm) as (Hne & Hnl & _).
+  rewrite sm_eq. unfold at_marker at 1. rewrite strip_prefix_nl by auto.
+  rewrite N.eqb_refl, sm_at by auto. reflexivity.
+Qed.
+
+(** the markers consist of marker characters; a line with another character is not one *)
+Lemma markers_chars : forallb (forallb is_marker_char) markers = true.
+Proof. reflexivity. Qed.
+
+Lemma has_low_not_marker m l : forallb is_marker_char m = true -> has_low l = true ->
+  strip_cr l = l -> not_marker m l.
+Proof.
+  intros Hm Hl Hs. unfold not_marker. rewrite Hs.
+  destruct (text_eqb l m) eqn:E; [|reflexivity]. exfalso.
+  assert (l = m).
+  { clear -E. revert m E. induction l as [|x l IH]; intros [|y m] E; cbn in E; try discriminate; [reflexivity|].
+    apply andb_prop in E. destruct E as [E1 E2]. apply N.eqb_eq in E1. f_equal; auto. }
+  subst l. unfold has_low in Hl. apply existsb_exists in Hl. destruct Hl as (c & Hin & Hc).
+  rewrite forallb_forall in Hm. rewrite (Hm _ Hin) in Hc. discriminate.
+Qed.
+
+Lemma shape_no_line_is m ls : forallb is_marker_char m = true ->
+  Forall (fun l => line_ok l = true) ls -> forallb has_low ls = true -> no_line_is m ls = true.
+Proof.
+  intros Hm H1 H2. unfold no_line_is. apply negb_true_iff.
+  destruct (existsb (fun l => text_eqb (strip_cr l) m) ls) eqn:E; [|reflexivity]. exfalso.
+  apply existsb_exists in E. destruct E as (l & Hin & El).
+  rewrite Forall_forall in H1. rewrite forallb_forall in H2.
+  pose proof (has_low_not_marker m l Hm (H2 _ Hin) (line_ok_strip_cr _ (H1 _ Hin))) as Hn.
+  unfold not_marker in Hn. congruence.
+Qed.
+
+Lemma span_shape_no_line_is m ls : forallb is_marker_char m = true -> m <> [] ->
+  forallb span_shape ls = true -> no_line_is m ls = true.
+Proof.
+  intros Hm Hne H2. unfold no_line_is. apply negb_true_iff.
+  destruct (existsb (fun l => text_eqb (strip_cr l) m) ls) eqn:E; [|reflexivity]. exfalso.
+  apply existsb_exists in E. destruct E as (l & Hin & El).
+  rewrite forallb_forall in H2. specialize (H2 _ Hin). unfold span_shape in H2.
+  destruct l as [|c l].
+  - destruct m; [congruence | discriminate].
+  - apply andb_prop in H2. destruct H2 as [Hl Hw].
+    destruct (rev (c :: l)) as [|d r] eqn:Er; [discriminate|]. apply negb_true_iff in Hw.
+    assert (Es : strip_cr (c :: l) = c :: l).
+    { rewrite <- (rev_involutive (c :: l)), Er. cbn [rev]. apply strip_cr_id. intros ->. discriminate. }
+    pose proof (has_low_not_marker m (c :: l) Hm Hl Es) as Hn. unfold not_marker in Hn. congruence.
+Qed.
+
+(** C17 for the current code: no premise about the contents, only the shape of written lines *)
+Theorem framing_roundtrip a :
+  sections_wf a = true -> written_shape a = true -> from_uasm (to_uasm a) = inr (reread a).
+Proof.
+  intros Hwf Hsh. unfold from_uasm.
+  apply (cascade_roundtrip split_marker [] post_nl no_line_is); auto.
+  - intros m ls X Hm Ho Hn HX. apply sm_step; auto.
+  - intros m ls X Hm Ho Hn HX. cbn [app]. apply sm_step; auto.
+  - intros m ls X Hm Ho Hn HX. destruct ls as [|l ls].
+    + cbn [body' app]. apply sm_at; auto.
+    + unfold body'. rewrite <- app_assoc. cbn [app]. apply sm_step; auto.
+  - intros m ls Hm Ho Hls Hh. destruct (marker_facts _ Hm) as (Hne & Hnl & _).
+    rewrite trim_nl. unfold trim, split_marker. destruct ls as [|l ls].
+    + cbn [unlines map concat trim_start trim_end]. rewrite sm_eq. unfold at_marker.
+      destruct m; [congruence | reflexivity].
+    + assert (Hs : trim_start (unlines (l :: ls)) = unlines (l :: ls)).
+      { rewrite unlines_cons. destruct l as [|c l]; [discriminate|]. cbn [head_ok] in Hh.
+        apply negb_true_iff in Hh. cbn [app trim_start]. rewrite Hh. reflexivity. }
+      rewrite Hs. destruct (trim_end_unlines (l :: ls)) as (init & lastl & E & _ & HT); [discriminate | auto |].
+      specialize (HT []). cbn [app] in HT. rewrite HT.
+      pose proof (no_line_is_Forall _ _ Ho) as Hnm. pose proof (Forall_noNL _ Hls) as Hnn.
+      rewrite E in Hnm, Hnn. apply Forall_app in Hnm. apply Forall_app in Hnn.
+      destruct Hnm as [Hnm1 Hnm2]. destruct Hnn as [Hnn1 Hnn2].
+      inversion Hnm2; inversion Hnn2; subst.
+      rewrite sm_unlines by auto. rewrite sm_eq.
+      rewrite <- (app_nil_r lastl) at 1. rewrite at_marker_none by (auto; left; reflexivity).
+      destruct lastl as [|c lastl]; [reflexivity|].
+      assert (Hc : (c =? NL) = false).
+      { apply N.eqb_neq. intros ->. match goal with H : noNL (NL :: _) |- _ => apply H end. left; reflexivity. }
+      rewrite Hc, sm_nobol_none; [reflexivity|].
+      intros Hin. match goal with H : noNL (c :: _) |- _ => apply H end. right; auto.
+  - (* okall from the shape of the written lines *)
+    unfold sections_wf in Hwf. unfold written_shape in Hsh.
+    repeat (match goal with H : _ && _ = true |- _ => apply andb_prop in H; destruct H end).
+    repeat (match goal with H : forallb line_ok _ = true |- _ => rewrite forallb_forall in H; apply Forall_forall in H end).
+    assert (Mc : forall m, In m markers -> forallb is_marker_char m = true).
+    { apply forallb_forall. exact markers_chars. }
+    unfold okall.
+    repeat (apply andb_true_intro; split);
+      first [ apply shape_no_line_is; [apply Mc; cbn; tauto | assumption | assumption]
+            | apply span_shape_no_line_is; [apply Mc; cbn; tauto | discriminate | assumption] ].
+Qed.
+
+(** the refutation witness of the old reader is read back by the current one *)
+Example current_reads_witness : from_uasm (to_uasm refute_witness) = inr (reread refute_witness).
+Proof. apply framing_roundtrip; reflexivity. Qed.
